@@ -1,5 +1,7 @@
 import InfluxQL.Lemmas.ScannerPos
 import InfluxQL.Lemmas.Ring
+import InfluxQL.Lemmas.ScanOps
+import InfluxQL.Lemmas.ScanOpsEq
 /-!
 # C05 — the lexer partitions its input and reports exact positions
 
@@ -215,6 +217,78 @@ theorem ring_depth3_counterexample :
       Ring.idxRun ['a', 'b', 'c'] (ops ++ [.curr]) 0 =
         [('a', ⟨0, 0⟩), ('b', ⟨0, 1⟩), ('c', ⟨0, 2⟩), Ring.zeroSlot] := by
   refine ⟨_, _, rfl, ?_, ?_, ?_⟩ <;> decide
+
+/-! ## The scanner stays within the ring
+
+`Model/ScanOps.lean` transcribes scanner.go (and the parser's `peekRune` / `peekComment`) at the
+level of the calls `read()` / `unread()` / `curr()` they issue on the reader, line by line. -/
+
+/-- **C05 (the scanner never leaves the ring).** For every text and every sequence of `Scan`,
+`ScanRegex` and the parser's `peekRune` / `peekComment` calls, the `read` / `unread` / `curr`
+operations issued on the reader never push back more than two runes when `curr()` runs (the depth
+assertion of the hook can not fire) and never push back what was not read. -/
+theorem scanner_pushback_within_ring (text : List Char) (fuel : Nat) (calls : List ScanOps.Call) :
+    Ring.depthOK (((ScanOps.opCalls fuel calls).run text 0).1.map Ring.ROp.toOp) 0 = true ∧
+    Ring.Balanced ((ScanOps.opCalls fuel calls).run text 0).1 0 = true := by
+  have h := ScanOps.wp_sound text _ 0 0 _ (ScanOps.opCalls_safe text fuel calls 0 0 (by omega))
+  exact ⟨h.2.1, h.1⟩
+
+/-- **C05 (scanner on the ring as written = scanner on the pure stream).** Running the transcribed
+scanner functions directly on the reader's 3-slot ring as written (`Ring.read readerNext`,
+`Ring.unread`, `Ring.currChecked`, from `readerInit text`) never trips the depth assertion and
+returns exactly the tokens / runes computed on the pure stream, where `read` is the rune at the
+logical position, `unread` a step back and `curr` the rune before the position. -/
+theorem scanner_on_ring_is_pure (text : List Char) (fuel : Nat) (calls : List ScanOps.Call) :
+    ∃ r', (ScanOps.opCalls fuel calls).runRing (Ring.readerInit text) =
+      some (((ScanOps.opCalls fuel calls).run text 0).2.1, r') := by
+  obtain ⟨hd, hb⟩ := scanner_pushback_within_ring text fuel calls
+  have hs := Ring.ring_run_isSome (((ScanOps.opCalls fuel calls).run text 0).1.map Ring.ROp.toOp)
+    (Ring.readerInit text)
+  rw [show (Ring.readerInit text).n = 0 from rfl, hd] at hs
+  cases hrun : (Ring.readerInit text).run
+      (((ScanOps.opCalls fuel calls).run text 0).1.map Ring.ROp.toOp) with
+  | none => rw [hrun] at hs; cases hs
+  | some res =>
+    obtain ⟨outs, r'⟩ := res
+    have ho := reader_ring_is_lookahead text _ outs r' hb hrun
+    exact ⟨r', ScanOps.runRing_of_trace text _ 0 _ r' outs hrun ho⟩
+
+/-- **C05 (`Scan` of the transcription = `scan` of the model).** Run on the pure stream from any
+logical position `k` of any text, the operation-level `Scan` returns the lexeme of the pure-cursor
+model and ends at the position where the model's cursor ends (fuel beyond the end of the text: no
+loop runs out of it). -/
+theorem scanner_ops_compute_scan (text : List Char) (fuel k : Nat) (h : text.length < fuel) :
+    scan (ScanOps.curAt text k) =
+      (((ScanOps.opScan fuel).run text k).2.1,
+        ScanOps.curAt text ((ScanOps.opScan fuel).run text k).2.2) :=
+  ScanOps.opScan_eq text fuel k (Nat.lt_of_le_of_lt (ScanOps.L_le text) h)
+
+/-- The same for `ScanRegex` (`ScanDelimited` with its `ReadRune` / `UnreadRune` pass-through of
+unknown escapes against the one-rune-at-a-time loop of the model). -/
+theorem scanner_ops_compute_scanRegex (text : List Char) (fuel k : Nat) (h : text.length < fuel) :
+    scanRegex (ScanOps.curAt text k) =
+      (((ScanOps.opScanRegex fuel).run text k).2.1,
+        ScanOps.curAt text ((ScanOps.opScanRegex fuel).run text k).2.2) :=
+  ScanOps.opScanRegex_eq text fuel k (Nat.lt_of_le_of_lt (ScanOps.L_le text) h)
+
+/-- **C05 (scanner + ring as written = pure-cursor model).** For every text and every sequence of
+`Scan` / `ScanRegex` / `peekRune` / `peekComment` calls, the transcribed functions run on the
+reader's 3-slot ring as written never trip the depth assertion and return exactly the tokens of
+`scan` / `scanRegex` of `Model/Scanner.lean` (and the peeked runes) on the pure cursor. -/
+theorem scanner_on_ring_is_model (text : List Char) (calls : List ScanOps.Call) :
+    ∃ r', (ScanOps.opCalls (ScanOps.fuelFor text) calls).runRing (Ring.readerInit text) =
+      some (ScanOps.pureCalls calls (Cursor.ofRunes text), r') := by
+  obtain ⟨r', hr⟩ := scanner_on_ring_is_pure text (ScanOps.fuelFor text) calls
+  refine ⟨r', ?_⟩
+  rw [hr, ← ScanOps.curAt_zero]
+  have := ScanOps.opCalls_eq text (ScanOps.fuelFor text)
+    (Nat.lt_of_le_of_lt (ScanOps.L_le text) (by simp [ScanOps.fuelFor])) calls 0
+  simp only [ScanOps.Prog.res] at this
+  rw [this]
+
+-- non-vacuity: `.5` after a peekComment reaches depth two and comes out as NUMBER
+example : (ScanOps.pureCalls [.peekComment, .scan, .scan] (Cursor.ofRunes ['.', '5', '/', '/'])) =
+    [.bool false, .tok ⟨.NUMBER, ⟨0, 0⟩, ['.', '5']⟩, .tok ⟨.DIV, ⟨0, 2⟩, []⟩] := by decide
 
 -- non-vacuity: a CRLF text read with look-ahead two deep (read read unread unread read curr)
 example : ∃ outs r', Ring.Balanced [.read, .read, .unread, .unread, .read, .curr] 0 = true ∧
